@@ -35,6 +35,7 @@ type progTrack struct {
 type progFile struct {
 	tracks    []*progTrack
 	mdatFirst bool
+	bad       string // set by build when the library's Size() and Encode disagree
 	largeMdat bool
 	co64      bool
 	bytes     []byte
@@ -138,6 +139,18 @@ func genProgFile(r *rand.Rand, nTracks int, maxSamples int) *progFile {
 		pf.tracks = append(pf.tracks, genProgTrack(r, media, 1+r.Intn(maxSamples)))
 	}
 	pf.build(r)
+	for try := 0; pf.bad != "" && try < 20; try++ {
+		progBadBuilds = append(progBadBuilds, pf.bad)
+		pf.bad = ""
+		for i := range pf.tracks {
+			media := "video"
+			if i > 0 && r.Intn(3) > 0 {
+				media = "audio"
+			}
+			pf.tracks[i] = genProgTrack(r, media, 1+r.Intn(maxSamples))
+		}
+		pf.build(r)
+	}
 	return pf
 }
 
@@ -319,9 +332,14 @@ func (pf *progFile) build(r *rand.Rand) {
 	buf.Write(emptyMdatBox(pf.emptyMdatAfter))
 	pf.bytes = buf.Bytes()
 	if pf.mdatStart+uint64(hdr) != payloadStart {
-		panic(fmt.Sprintf("layout mismatch %d %d", pf.mdatStart+uint64(hdr), payloadStart))
+		// the chunk offsets were computed from moov.Size(): the library wrote another number of bytes than Size() said
+		pf.bad = fmt.Sprintf("built progressive file: media starts at %d, Size() of the boxes in front of it predicted %d", pf.mdatStart+uint64(hdr), payloadStart)
 	}
 }
+
+// progBadBuilds: generated progressive files the library wrote with sizes other than Size() predicted (a C02 matter; the
+// other properties draw another file)
+var progBadBuilds []string
 
 func must(err error) {
 	if err != nil {
